@@ -18,25 +18,33 @@
   non-nil value on no operands), in both integer-conversion modes (`m = false`: cl23, legacy;
   `m = true`: cl23.1 / cl24, fixed).
 
-  FULL STATEMENT (for ALL inputs, without the `flag = false` / `collapseSafe` hypotheses) is FALSE
-  for the code as it is; each excluded class has a kernel-checked counter-witness below:
-    * legacy mode, `collapse_constant_condition`: `truthy` calls the quoted atom `0x00` false,
-      CLVM calls it true                      (`collapse_constant_condition_counterexample`)
-      — REACHABLE from source: `(mod (A B) (include *standard-cl-23*) (i 0x00 A B))`;
-    * legacy mode, `null_optimization`: `(q . 0)` with `Integer 0` becomes the path `0x00`
-                                              (`null_optimization_counterexample_legacy_zero`);
-    * `Strategy23` calls `null_optimization(root, spine = true)`: a root quote form `(q . DATA)`
-      has the elements of DATA rewritten        (`null_optimization_counterexample_root_quote`)
-      — REACHABLE from source: `(mod () (include *standard-cl-23*) (q (1)))`;
-    * the `while` loop of `remove_double_apply` re-enters a result that has become a quote form
-      and rewrites inside the quoted data       (`remove_double_apply_counterexample_requoted`);
+  The model mirrors the code AFTER the three `fix:` commits c770023 (null-root-quote),
+  ff1c63d (legacy-zero-truthy), fdf41dd (double-apply-requoted).  Before them the passes
+  changed results of ordinary programs in three ways; each former counter-witness is now a
+  positive theorem on the same witness (`…_repaired`):
+    * `Strategy23` called `null_optimization(root, spine = true)` on an expression, so a root
+      quote form `(q . DATA)` had the elements of DATA rewritten — now
+      `null_optimization_of_expression` leaves a quote form alone
+                                              (`null_optimization_root_quote_repaired`);
+    * legacy mode (cl23): `collapse_constant_condition` decided a quoted condition with `truthy`,
+      which reads `0x00` as the number 0 — now `truthy_when_converted`, which IS CLVM truthiness
+      of the converted value in both modes (`collapse_constant_condition_legacy_zero_repaired`);
+      the rewrite is sound for ALL inputs (`collapse_constant_condition_sound`);
+    * the `while` loop of `remove_double_apply` re-entered a result that had become a quote form
+      and rewrote inside the quoted data — now it re-checks (`remove_double_apply_requoted_repaired`).
+
+  FULL STATEMENT of the recursive passes (ALL inputs, without `flag = false`) is still false for
+  arbitrary CLVM, on classes that do not arise on expression-shaped code (`exprShape`, measured on
+  every recorded pass input; see `*_flag_free_on_codegen_shape`), each with a kernel-checked
+  counter-witness:
     * operands of a pair-headed form `((X) . args)` are rewritten although clvmr does not
       evaluate them                              (`*_counterexample_pair_head`);
     * `brief_path_selection_single` composes onto a NEGATIVE `Integer` as if it were path 1
-                                              (`brief_path_selection_counterexample_negative`).
+                                              (`brief_path_selection_counterexample_negative`);
+    * legacy mode: `(q . 0)` with the `Integer 0` spelling (which neither the reader nor the
+      conversions produce) becomes the path `0x00` (`null_optimization_counterexample_legacy_zero`).
   The `_partial` theorems carry exactly these exclusions as the decidable ghost flag the model
-  computes alongside the result (`PR.flag`, Opt/Passes.lean); the correspondence run reports how
-  often real code-generator output raises it.
+  computes alongside the result (`PR.flag`, Opt/Passes.lean).
 -/
 import ChialispModel.Props.C01
 import ChialispModel.Proofs.PassesLemmas
@@ -112,39 +120,37 @@ example : changeApplyDoubleQuote
     (.cons (.int 2) (.cons (.cons (.int 1) (.cons (.int 1) (.atom [7, 7]))) (.cons (.int 11) .nil)))
     = (true, .cons (.int 1) (.atom [7, 7])) := by decide
 
-/-- **collapse_constant_condition** `(i COND A B . ANY) ⇒ A | B`: sound under the decidable side
-    condition `collapseSafe` (a quoted condition's `truthy` is CLVM truthiness of its converted
-    value).  FULL STATEMENT without `hs` is false in the legacy mode:
-    `collapse_constant_condition_counterexample`. -/
-theorem collapse_constant_condition_partial {ops : OpSem} (po : PassOps ops) (m : Mode) (r : Rich)
-    (hs : collapseSafe m r = true) (e v : Val) (h : Evaluates ops (Rich.toClvm m r) e v) :
+/-- **collapse_constant_condition** `(i COND A B . ANY) ⇒ A | B` for a constant COND: sound for
+    every rich value, every operator table with `PassOps`, BOTH integer modes — no side condition
+    (a quoted condition is decided by `truthy_when_converted`, see `truthy_when_converted_is_clvm`). -/
+theorem collapse_constant_condition_sound {ops : OpSem} (po : PassOps ops) (m : Mode) (r : Rich)
+    (e v : Val) (h : Evaluates ops (Rich.toClvm m r) e v) :
     Evaluates ops (Rich.toClvm m (collapseConstantCondition m r).2) e v :=
-  collapseConstantCondition_sound po m r hs h
+  collapseConstantCondition_sound po m r h
 
-/-- in the fixed integer mode (cl23.1, cl24) the side condition holds for EVERY input, so there
-    the rewrite is sound without exclusions. -/
-theorem collapse_constant_condition_sound_fixed {ops : OpSem} (po : PassOps ops) (r : Rich)
-    (e v : Val) (h : Evaluates ops (Rich.toClvm true r) e v) :
-    Evaluates ops (Rich.toClvm true (collapseConstantCondition true r).2) e v :=
-  collapseConstantCondition_sound po true r (collapseSafe_fixed r) h
+/-- `truthy_when_converted` (clvm.rs) is CLVM truthiness (non-empty atom or pair) of what
+    `convert_to_clvm_rs` makes of the value, in both integer modes and for every spelling. -/
+theorem truthy_when_converted_is_clvm (m : Mode) (x : Rich) :
+    truthyWhenConverted m x = !Val.nilp (Rich.toClvm m x) :=
+  truthyWhenConverted_eq m x
 
-example : collapseSafe false (.cons (.int 3) (.cons (.cons (.int 1) (.int 7)) (.cons (.int 2) (.cons (.int 5) .nil)))) = true ∧
-    collapseConstantCondition false (.cons (.int 3) (.cons (.cons (.int 1) (.int 7)) (.cons (.int 2) (.cons (.int 5) .nil))))
+example : collapseConstantCondition false (.cons (.int 3) (.cons (.cons (.int 1) (.int 7)) (.cons (.int 2) (.cons (.int 5) .nil))))
       = (true, .int 2) := by decide
 
 private def A (l : List Nat) : Val := .atom (l.map UInt8.ofNat)
 
-/-- counter-witness (legacy integer mode, cl23): `(i (q . 0x00) 2 3)` returns the FIRST wing in
-    clvmr (`0x00` is a non-empty atom), `collapse_constant_condition` picks the second
-    (`truthy` reads `0x00` as the number 0).  Reachable from source, see the header. -/
-theorem collapse_constant_condition_counterexample :
-    collapseSafe false (.cons (.int 3) (.cons (.cons (.int 1) (.qstr 120 [0])) (.cons (.int 2) (.cons (.int 3) .nil)))) = false ∧
+/-- former counter-witness (legacy integer mode, cl23), repaired by ff1c63d:
+    `(i (q . 0x00) 2 3)` returns the FIRST wing in clvmr (`0x00` is a non-empty atom), and
+    `collapse_constant_condition` now picks the first wing too — in both modes. -/
+theorem collapse_constant_condition_legacy_zero_repaired :
     evalC Ops.chiaOps 6 (Rich.toClvm false
       (.cons (.int 3) (.cons (.cons (.int 1) (.qstr 120 [0])) (.cons (.int 2) (.cons (.int 3) .nil)))))
       (.pair (A [7]) (A [8])) = .ok (A [7]) ∧
     collapseConstantCondition false
-      (.cons (.int 3) (.cons (.cons (.int 1) (.qstr 120 [0])) (.cons (.int 2) (.cons (.int 3) .nil)))) = (true, .int 3) ∧
-    evalC Ops.chiaOps 6 (Rich.toClvm false (.int 3)) (.pair (A [7]) (A [8])) = .ok (A [8]) := by
+      (.cons (.int 3) (.cons (.cons (.int 1) (.qstr 120 [0])) (.cons (.int 2) (.cons (.int 3) .nil)))) = (true, .int 2) ∧
+    collapseConstantCondition true
+      (.cons (.int 3) (.cons (.cons (.int 1) (.qstr 120 [0])) (.cons (.int 2) (.cons (.int 3) .nil)))) = (true, .int 2) ∧
+    evalC Ops.chiaOps 6 (Rich.toClvm false (.int 2)) (.pair (A [7]) (A [8])) = .ok (A [7]) := by
   decide
 
 -- ---------------------------------------------------------------------------------------
@@ -153,8 +159,8 @@ theorem collapse_constant_condition_counterexample :
 
 /-- **null_optimization** as called by both strategies (`spine = false`: `ExistingStrategy`,
     `spine = true`: `Strategy23`): every value of the input is a value of the output, for every
-    run whose ghost flag is clear.  FULL STATEMENT without `hf` is false:
-    `null_optimization_counterexample_*`. -/
+    run whose ghost flag is clear.  FULL STATEMENT without `hf` is false for
+    arbitrary CLVM: `null_optimization_counterexample_{legacy_zero, pair_head}`. -/
 theorem null_optimization_partial {ops : OpSem} (po : PassOps ops) (m : Mode) (r : Rich) (spine : Bool)
     (hf : (nullPass m r spine).flag = false) (e v : Val) (h : Evaluates ops (Rich.toClvm m r) e v) :
     Evaluates ops (Rich.toClvm m (nullPass m r spine).out) e v := by
@@ -171,16 +177,16 @@ theorem null_optimization_unchanged (m : Mode) (r : Rich) (spine : Bool)
 example : nullPass true (.cons (.int 4) (.cons (.cons (.int 1) .nil) (.cons (.cons (.int 5) (.cons (.cons (.atom [113]) .nil) .nil)) .nil))) true
     = ⟨true, .cons (.int 4) (.cons .nil (.cons (.cons (.int 5) (.cons .nil .nil)) .nil)), false, false⟩ := by decide
 
-/-- counter-witness (root quote form, `Strategy23`): the program `(q (q))` returns `((q))`;
-    `null_optimization(root, spine = true)` turns it into `(q ())`, which returns `(())`.
-    Reachable from source: `(mod () (include *standard-cl-23*) (q (1)))`. -/
-theorem null_optimization_counterexample_root_quote :
+/-- former counter-witness (root quote form, `Strategy23`), repaired by c770023: the program
+    `(q (q))` returns `((q))`; `null_optimization_of_expression` leaves it alone and so does the
+    whole `Strategy23` sequence.  (Source: `(mod () (include *standard-cl-23*) (q (1)))`.) -/
+theorem null_optimization_root_quote_repaired :
     (nullPass true (.cons (.int 1) (.cons (.cons (.int 1) .nil) .nil)) true)
-      = ⟨true, .cons (.int 1) (.cons .nil .nil), true, false⟩ ∧
+      = ⟨false, .cons (.int 1) (.cons (.cons (.int 1) .nil) .nil), false, false⟩ ∧
+    (strategy23 true 10 (.cons (.int 1) (.cons (.cons (.int 1) .nil) .nil)))
+      = ⟨false, .cons (.int 1) (.cons (.cons (.int 1) .nil) .nil), false, false⟩ ∧
     evalC Ops.chiaOps 4 (Rich.toClvm true (.cons (.int 1) (.cons (.cons (.int 1) .nil) .nil))) (A [])
-      = .ok (.pair (.pair (A [1]) (A [])) (A [])) ∧
-    evalC Ops.chiaOps 4 (Rich.toClvm true (.cons (.int 1) (.cons .nil .nil))) (A [])
-      = .ok (.pair (A []) (A [])) := by
+      = .ok (.pair (.pair (A [1]) (A [])) (A [])) := by
   decide
 
 /-- counter-witness (legacy mode): `(q . 0)` with the `Integer 0` spelling is the atom `0x00`;
@@ -211,7 +217,7 @@ theorem null_optimization_counterexample_pair_head :
     rewrites and the `while any_transformation` loop — preserves every value of the input, for
     EVERY amount of loop fuel (a run cut short returns an intermediate tree that still means what
     the input means) and every run whose ghost flag is clear.  FULL STATEMENT without `hf` is
-    false: `remove_double_apply_counterexample_*`. -/
+    false for arbitrary CLVM: `remove_double_apply_counterexample_pair_head`. -/
 theorem remove_double_apply_partial {ops : OpSem} (po : PassOps ops) (m : Mode) (fuel : Nat) (r : Rich)
     (hf : (rda m fuel r true).flag = false) (e v : Val) (h : Evaluates ops (Rich.toClvm m r) e v) :
     Evaluates ops (Rich.toClvm m (rda m fuel r true).out) e v := by
@@ -240,21 +246,22 @@ example : removeDoubleApply true
         (.cons (.int 1) .nil)))) (.cons (.int 1) .nil))) true
     = ⟨true, .int 2, false, false⟩ := by decide
 
-/-- counter-witness (quoted data reached as code): `(a (q 1 . ((i () 2 3))) 1)` returns the DATA
-    `((i () 2 3))`; the first loop round rewrites it to `(q . ((i () 2 3)))`, the loop goes round
-    again without re-checking for a quote form, and the second round collapses the "condition"
-    inside the data: the result `(q 3)` returns `(3)`. -/
-theorem remove_double_apply_counterexample_requoted :
+/-- former counter-witness (quoted data reached as code), repaired by fdf41dd:
+    `(a (q 1 . ((i () 2 3))) 1)` returns the DATA `((i () 2 3))`; the first loop round rewrites it
+    to `(q . ((i () 2 3)))`, the loop now re-checks for a quote form and stops: the result
+    returns the same data. -/
+theorem remove_double_apply_requoted_repaired :
     removeDoubleApply true
       (.cons (.int 2) (.cons (.cons (.int 1) (.cons (.int 1) (.cons (.cons (.int 3) (.cons .nil (.cons (.int 2) (.cons (.int 3) .nil)))) .nil)))
         (.cons (.int 1) .nil))) true
-      = ⟨true, .cons (.int 1) (.cons (.int 3) .nil), true, false⟩ ∧
+      = ⟨true, .cons (.int 1) (.cons (.cons (.int 3) (.cons .nil (.cons (.int 2) (.cons (.int 3) .nil)))) .nil), false, false⟩ ∧
     evalC Ops.chiaOps 6 (Rich.toClvm true
       (.cons (.int 2) (.cons (.cons (.int 1) (.cons (.int 1) (.cons (.cons (.int 3) (.cons .nil (.cons (.int 2) (.cons (.int 3) .nil)))) .nil)))
         (.cons (.int 1) .nil)))) (A [9])
       = .ok (.pair (.pair (A [3]) (.pair (A []) (.pair (A [2]) (.pair (A [3]) (A []))))) (A [])) ∧
-    evalC Ops.chiaOps 6 (Rich.toClvm true (.cons (.int 1) (.cons (.int 3) .nil))) (A [9])
-      = .ok (.pair (A [3]) (A [])) := by
+    evalC Ops.chiaOps 6 (Rich.toClvm true
+      (.cons (.int 1) (.cons (.cons (.int 3) (.cons .nil (.cons (.int 2) (.cons (.int 3) .nil)))) .nil))) (A [9])
+      = .ok (.pair (.pair (A [3]) (.pair (A []) (.pair (A [2]) (.pair (A [3]) (A []))))) (A [])) := by
   decide
 
 /-- counter-witness (pair head): `((c) (a (q . 5) 1) 7)` returns `((a (q . 5) 1) . 7)` (operands
@@ -383,15 +390,26 @@ theorem brief_path_selection_flag_free_on_codegen_shape (r : Rich) (h : exprShap
     (briefPath r).flag = false :=
   (brief_flag_of_shape r).1 h
 
-/-- likewise for `null_optimization` entered at an expression (`spine = false`, the
-    `ExistingStrategy` call) in the fixed integer mode: on expression-shaped code only the root
-    treatment of `Strategy23` (`spine = true`, counter-witness `…_root_quote`), the legacy-mode
-    zero and the double-apply loop's re-entry into quoted data remain — the three classes that
-    ARE reachable from source. -/
-theorem null_optimization_flag_free_on_codegen_shape (r : Rich) (h : exprShape r = true) :
-    (nullPass true r false).flag = false := by
-  have := null_flag_of_shape r false (by simpa using h)
-  simp [nullPass, this]
+/-- likewise for `null_optimization` in the fixed integer mode, at both entries
+    (`spine = false`: `ExistingStrategy`; `spine = true`: `Strategy23`'s
+    `null_optimization_of_expression`): on expression-shaped code no excluded shape is met. -/
+theorem null_optimization_flag_free_on_codegen_shape (r : Rich) (spine : Bool) (h : exprShape r = true) :
+    (nullPass true r spine).flag = false :=
+  nullPass_flag_of_shape r spine h
+
+/-- hence, WITHOUT any flag hypothesis: on expression-shaped code `brief_path_selection` preserves
+    every value (both integer modes). -/
+theorem brief_path_selection_sound_on_codegen_shape {ops : OpSem} (po : PassOps ops) (m : Mode) (r : Rich)
+    (hs : exprShape r = true) (e v : Val) (h : Evaluates ops (Rich.toClvm m r) e v) :
+    Evaluates ops (Rich.toClvm m (briefPath r).out) e v :=
+  brief_path_selection_partial po m r (brief_path_selection_flag_free_on_codegen_shape r hs) e v h
+
+/-- and `null_optimization`, at either strategy's entry, preserves every value of
+    expression-shaped code in the fixed integer mode. -/
+theorem null_optimization_sound_on_codegen_shape {ops : OpSem} (po : PassOps ops) (r : Rich) (spine : Bool)
+    (hs : exprShape r = true) (e v : Val) (h : Evaluates ops (Rich.toClvm true r) e v) :
+    Evaluates ops (Rich.toClvm true (nullPass true r spine).out) e v :=
+  null_optimization_partial po true r spine (null_optimization_flag_free_on_codegen_shape r spine hs) e v h
 
 example : exprShape (.cons (.int 2) (.cons (.cons (.int 1) (.cons (.cons (.int 9) .nil) .nil)) (.cons (.int 1) .nil))) = true ∧
     exprShape (.cons (.cons (.int 4) .nil) (.cons (.int 1) .nil)) = false ∧
